@@ -260,8 +260,12 @@ func genSidecarCase(r *Rng, long bool) *SCase {
 			switch {
 			case mode < 1: // empty
 			case mode < 3 && last != nil: // repeat, maybe flip a state
+				flip := map[uint64]bool{} // per hash, so that two entries of one target stay identical
 				for _, t := range last {
-					if r.Chance(40) {
+					if _, ok := flip[t.Hash]; !ok {
+						flip[t.Hash] = r.Chance(40)
+					}
+					if flip[t.Hash] {
 						t.State = 1 - t.State
 					}
 					op.Req = append(op.Req, t)
@@ -281,6 +285,13 @@ func genSidecarCase(r *Rng, long bool) *SCase {
 						op.Req = append(op.Req, t)
 					}
 				}
+			}
+			// the same target listed under both job keys (a request as sent while a target moves from
+			// one job to the other): identical entries, so the outcome does not depend on map order
+			if len(op.Req) > 0 && mode >= 3 && r.Chance(20) {
+				d := op.Req[r.Intn(len(op.Req))]
+				d.Job = 1 - d.Job
+				op.Req = append(op.Req, d)
 			}
 			last = op.Req
 			// a job may be listed without any target (the assignment is what counts, not the job keys)
@@ -409,7 +420,7 @@ func runSidecarCase(c *SCase, work string) (string, []SObs, error) {
 
 func runSidecar(a Args) *Result {
 	res := newResult("sidecar", a.seed, a.tier)
-	res.Rule = "random operation histories (updates with adds/removals/state flips/repeats/empty sets/moves between jobs, scrapes with known sample counts or failures, restarts from the store directory) against the real TargetsManager+Service+Proxy; a history is non-trivial when it contains a kept entry, a flip to in-transfer, a full window or a restart; distinct by encoded history"
+	res.Rule = "random operation histories (updates with adds/removals/state flips/repeats/empty sets/moves between jobs/a target listed under two jobs at once, scrapes with known sample counts or failures, restarts from the store directory) against the real TargetsManager+Service+Proxy; a history is non-trivial when it contains a kept entry, a flip to in-transfer, a full window or a restart; distinct by encoded history"
 	rng := NewRng(a.seed)
 	n := 300
 	if a.tier == "thorough" {
